@@ -65,3 +65,43 @@ Section Errors.
   | BE_global r t e : add_all_files empty_creg srcs = COk r -> In t (r_templates (cr_reg r)) ->
       set_globals_template ko (bg_map bg) t = Some e -> bundle_error (EGlobalErr (t_name t) e).
 End Errors.
+
+(* ---- compiling again from trees that Registry.Add has already rewritten ---- *)
+
+(* the {@param} nodes at the head of a template body *)
+Definition leading_headers (t : node) : list node :=
+  match t with NTemplate _ _ (NList _ nodes) _ _ => fst (span_headers nodes) | _ => [] end.
+Definition is_soydoc (n : node) : bool := match n with NSoyDoc _ _ => true | _ => false end.
+(* every template with header params has a SoyDoc node directly in front of it
+   (the node into which Add moves the params) *)
+Fixpoint headers_documented (prev : option node) (body : list node) : bool :=
+  match body with
+  | [] => true
+  | n :: r =>
+      (match leading_headers n with
+       | [] => true
+       | _ :: _ => match prev with Some pv => is_soydoc pv | None => false end
+       end) && headers_documented (Some n) r
+  end.
+Definition src_documented (s : src) : bool :=
+  match s with SrcOk f => headers_documented None (sfile_body f) | SrcParseErr _ _ => true end.
+(* the second compilation sees the source as it was, or as a successful Add left it *)
+Definition readd_variant (s s' : src) : Prop := s' = s \/ s' = rewritten_src s.
+
+(* the trees in which a file can be after Add returned an error on it *)
+Inductive interrupted_variant (f : sfile) : sfile -> Prop :=
+(* the nodes up to and including a node that is not a SoyDoc (the template whose
+   name turned out to be defined already) are rewritten, the others untouched *)
+| IV_rewritten_prefix j ns ae :
+    find_namespace (firstn (S j) (sfile_body f)) = inr (ns, ae) ->
+    (S j <= length (sfile_body f))%nat ->
+    (forall m, nth_error (sfile_body f) j = Some m -> is_soydoc m = false) ->
+    interrupted_variant f (interrupted_file (S j) (fun l => l) f)
+(* the nodes in front of the SoyDoc of the template rejected for having both
+   kinds of params are rewritten; that SoyDoc has the header params appended
+   (once per failed Add: [extra] is any list); the rest is untouched *)
+| IV_params_appended k extra p ps t rest name ns ae :
+    find_namespace (firstn k (sfile_body f)) = inr (ns, ae) ->
+    skipn k (sfile_body f) = NSoyDoc p ps :: t :: rest ->
+    template_local (sfile_name f) ns ae (Some (NSoyDoc p ps)) t = inl (AEBothParamKinds name) ->
+    interrupted_variant f (interrupted_file k (params_appended extra) f).
